@@ -170,8 +170,17 @@ func ruleC17_2(c *Ctx, r *Rep) {
 			cs := m.Conds
 			p, ok := maskPathOf(cs)
 			if !ok && m.Call != nil && m.Call.Parent() != u.Terms[0].Call.Parent() {
+				// a mutator applied in a private method / helper of the handler: the conditions of its call site(s)
+				for _, site := range c.callersOf(top(m.Call.Parent())) {
+					if pp, ok2 := maskPathOf(edgeConds(site.Block())); ok2 {
+						p, ok = pp, true
+					}
+				}
 				// look at the call sites crossed while following the builder (applyPushConfig)
 				for _, f := range u.Frames {
+					if ok {
+						break
+					}
 					if pp, ok2 := maskPathOf(edgeConds(f.Block())); ok2 {
 						p, ok = pp, true
 					}
@@ -183,6 +192,7 @@ func ruleC17_2(c *Ctx, r *Rep) {
 						}
 					}
 				}
+
 			}
 			if !ok {
 				r.Fail("C17.2", "C17.2:unmasked:"+m.Col+"@"+sp.h, m.Pos, "column "+m.Col+" is modified independently of the update mask: an update changes a field that its mask does not name")
@@ -357,8 +367,19 @@ func ruleC17_2(c *Ctx, r *Rep) {
 		r.Check("C17.2", "C17.2:noop-shortcut@"+sp.h, u.Pos, okSkip, "the no-op shortcut covers set, cleared and added fields", why)
 		// unknown paths are rejected
 		okDef := false
-		for _, ret := range returnsOf(cl) {
-			if returnsNilError(ret) {
+		var defRets []*ssa.Return
+		var collect func(f *ssa.Function)
+		collect = func(f *ssa.Function) {
+			defRets = append(defRets, returnsOf(f)...)
+			for _, a := range f.AnonFuncs {
+				collect(a)
+			}
+		}
+		for _, f := range c.opFuncs(h) {
+			collect(f)
+		}
+		for _, ret := range defRets {
+			if returnsNilError(ret) || len(ret.Results) == 0 || !isErrorType(ret.Results[len(ret.Results)-1].Type()) {
 				continue
 			}
 			if _, isPath := maskPathOf(edgeConds(ret.Block())); isPath {
